@@ -8,7 +8,7 @@ from ..expr import C, SELF, canon, mapx, norm, show, strip_epochs, walk
 from ..intervals import EQ, GT, LT, path_orderings
 from ..model import AnalysisError
 from ..own import BINF, is_bucket
-from .C03 import cpaths, insert_flows
+from .C03 import cpaths, insert_flows, key_triple, presence
 
 EXPL = ("Counting Bloom: add_alt, remove_alt and check_alt address the same cells (index = hash mod number of positions over the "
         "key's hash list; the lemmas 'bloom_length = number of bits in this class' and 'len(hashes) = number_hashes' are checked "
@@ -274,13 +274,13 @@ def check(prog, rep, tier):
     for p in cpaths(prog, CC, add):
         inc = [e for e in p.events if e.kind == "call" and e.name == "increment"]
         ins = [e for e in p.events if e.kind == "call" and e.name == "_insert_fingerprint_alt"]
-        pres = [c for c in p.conds if c.atom[0] == "cmp" and c.atom[1] in ("is", "isnot") and strip_epochs(c.atom[2])[0] == "ret"
-                and strip_epochs(c.atom[2])[1].endswith("._check_if_present") and not c.loops]
-        present = pres and ((pres[0].atom[1] == "isnot") == pres[0].truth)
+        pr = presence(p)
+        present = pr is not None and pr[0] == "present"
         if inc:
             seen = True
             hit = [c for c in p.conds if c.loops and c.truth and c.atom[0] == "cmp" and c.atom[1] == "in"]
-            fpv = [strip_epochs(e.args[2]) for e in p.events if e.kind == "call" and e.name == "_check_if_present" and len(e.args) == 3]
+            kt = key_triple(p)
+            fpv = [strip_epochs(e.args[2]) for e in p.events if e.kind == "call" and e.name == "_check_if_present" and len(e.args) == 3] or ([kt[2]] if kt else [])
             if not present or len(inc) != 1 or ins or not hit or strip_epochs(hit[-1].atom[3]) != strip_epochs(inc[0].recv) \
                     or not fpv or strip_epochs(hit[-1].atom[2]) != fpv[0]:
                 rep.bad("C08.cc-add-present", f"{CC}.add", "increment", "a present key's add does not increment exactly the bin holding its fingerprint", inc[0].where())
@@ -296,10 +296,9 @@ def check(prog, rep, tier):
     rm = prog.method(CC, "remove")
     okr, seen = True, False
     for p in cpaths(prog, CC, rm):
-        pres = [c for c in p.conds if c.atom[0] == "cmp" and c.atom[1] in ("is", "isnot") and strip_epochs(c.atom[2])[0] == "ret"
-                and strip_epochs(c.atom[2])[1].endswith("._check_if_present")]
-        absent = pres and ((pres[0].atom[1] == "is") == pres[0].truth)
-        muts = [e for e in p.events if (e.kind == "call" and e.name in ("decrement", "increment", "remove", "pop", "append")) or e.kind in ("setfield", "setelem")]
+        pr = presence(p)
+        absent = pr is not None and pr[0] == "absent"
+        muts = [e for e in p.events if (e.kind == "call" and e.name in ("decrement", "increment", "remove", "pop", "append", "__delitem__")) or e.kind in ("setfield", "setelem")]
         if absent:
             if muts or strip_epochs(p.exit[1]) != C(False):
                 rep.bad("C08.cc-remove", f"{CC}.remove", "absent path", "removing an absent key mutates the filter or does not return False", rm.where())
